@@ -14,6 +14,8 @@ type RuleCtx struct {
 	FI   *FuncInfo
 	F    *Flow
 	Info *types.Info
+
+	nilRet map[Pt]int // mayReturnNil cache: 1 yes, 2 no
 }
 
 func (c *Check) In(rel, recv, name string) *RuleCtx {
@@ -164,10 +166,15 @@ func (r *RuleCtx) IsSuccessReturn(pt Pt) bool {
 			if isNilIdent(r.Info, last) {
 				return true
 			}
-			// an error variable may be nil: only literals, address-of and selector constants are surely non-nil
+			// an error variable: a success return iff some definition of it reaches this return with the variable still
+			// nil (`return err` under `if err != nil` does not; a tail `return err` after `err = f()` does; so does the
+			// slip `if err == nil { return err }`)
 			if o := objOf(r.Info, last); o != nil {
-				if v, ok := o.(*types.Var); ok && !v.IsField() && v.Parent() != nil && v.Pkg() != nil && v.Parent() != v.Pkg().Scope() {
-					return false // `return err` after an err != nil test is the dominant idiom; rules that care refine on the variable
+				if v, ok := o.(*types.Var); ok && !v.IsField() && v.Parent() != nil && v.Pkg() != nil && v.Parent() != v.Pkg().Scope() && r.F.Body == r.FI.Decl.Body {
+					if r.F.KnownNonNil(v) {
+						return false
+					}
+					return r.mayReturnNil(pt, v)
 				}
 			}
 			return false
@@ -877,4 +884,69 @@ func (r *RuleCtx) ReachingDefs(obj types.Object, at Pt, avoidEdge func(b *cfgBlo
 		defs = append(defs, rhs)
 	}
 	return defs, ok
+}
+
+
+// mayReturnNil: local error variable v is returned at exit point ex; is there a definition of v from which ex is
+// reachable with v nil and not redefined? Definitions by surely non-nil expressions are skipped; parameters and
+// named results (no visible definition) count as possibly nil only if never assigned. Cached per exit.
+func (r *RuleCtx) mayReturnNil(ex Pt, v *types.Var) bool {
+	if r.nilRet == nil {
+		r.nilRet = map[Pt]int{}
+	}
+	if c, ok := r.nilRet[ex]; ok {
+		return c == 1
+	}
+	r.nilRet[ex] = 2
+	info := r.Info
+	res := false
+	ndefs := 0
+	for _, dp := range r.F.Points() {
+		n := dp.Node()
+		if n == nil || !assignsObj(info, n, v) {
+			if vs, ok := n.(*ast.ValueSpec); ok {
+				mine := false
+				for _, nm := range vs.Names {
+					if info.Defs[nm] == types.Object(v) {
+						mine = true
+					}
+				}
+				if !mine {
+					continue
+				}
+			} else {
+				continue
+			}
+		}
+		ndefs++
+		// surely non-nil right-hand side?
+		if as, ok := n.(*ast.AssignStmt); ok && len(as.Lhs) == len(as.Rhs) {
+			skip := false
+			for i, l := range as.Lhs {
+				if objOf(info, l) == types.Object(v) {
+					switch x := ast.Unparen(as.Rhs[i]).(type) {
+					case *ast.UnaryExpr:
+						skip = x.Op == token.AND
+					case *ast.CallExpr:
+						skip = isCall(info, x, "fmt.Errorf", "errors.New")
+					}
+				}
+			}
+			if skip {
+				continue
+			}
+		}
+		redef := func(q Pt) bool { return q.Node() != nil && assignsObj(info, q.Node(), v) }
+		if _, f := r.F.ReachRefined(dp, v, true, false, func(q Pt) bool { return q == ex }, redef); f {
+			res = true
+			break
+		}
+	}
+	if ndefs == 0 {
+		res = false // a parameter handed through: the caller's business
+	}
+	if res {
+		r.nilRet[ex] = 1
+	}
+	return res
 }
